@@ -547,7 +547,9 @@ func (c *Conn) RunRollbackTx(spec RollbackSpec) (res TxResult) {
 			if err := d.step("rollback truncate"); err != nil {
 				return fail("rb-trunc", err)
 			}
-			if origPages > 0 {
+			// (pager_truncate: the file is cut back to the original size, zero pages
+			// for the first transaction of a new database, if it is larger)
+			if sz, err := c.dbf.Size(); err != nil || sz > int64(origPages)*int64(d.PageSize) {
 				if err := c.dbf.Truncate(int64(origPages) * int64(d.PageSize)); err != nil {
 					return fail("rb-trunc", err)
 				}
